@@ -693,6 +693,13 @@ func (e *SpecEnv) evalBinary(n *ast.BinaryExpr) (Val, error) {
 		b = e.coerce(b, a.Ty)
 		t = a.Ty
 	}
+	if a.Ty != nil && b.Ty != nil && (n.Op == token.EQL || n.Op == token.NEQ) {
+		// a comparison between values of different sorts is a specification error (reported as such),
+		// not an ill-formed solver script
+		if sa, sb := e.fc.S().SortOf(a.Ty), e.fc.S().SortOf(b.Ty); sa != sb {
+			return Val{}, fmt.Errorf("mismatched types %s and %s in comparison", a.Ty, b.Ty)
+		}
+	}
 	boolT := types.Typ[types.Bool]
 	if _, isSl := t.Underlying().(*types.Slice); isSl && (n.Op == token.EQL || n.Op == token.NEQ) {
 		// specification-level identity of slice values (same backing array, offset, length, capacity)
